@@ -44,7 +44,7 @@ def required(tier):
 def gen_cases(seed, tier):
     rng = np.random.default_rng([seed, 12])
     cases = []
-    n_x = 66 if tier == 'quick' else 1200
+    n_x = 66 if tier == 'quick' else 2400
     for i in range(n_x):
         tgt = NAMES[i % len(NAMES)]
         pre = NAMES[(i // len(NAMES) + i) % len(NAMES)]
